@@ -19,8 +19,9 @@ Mirrors
 * `AstEval.eval(new_state_vars)` as used for the `@state_active` expression in both subsystems → `Occ.load`/`Occ.seen`
   (the expression's local table is replaced only by a NON-EMPTY dictionary, otherwise the table left by an earlier
   occurrence stays).
-  The four places where the code departs from the property are switchable by `Flags` (`Flags.current` = the code as
-  it is, `Flags.repaired` = what the fixes would give).
+  The four places where the code departed from the property are switchable by `Flags`: `Flags.preFix` = the code before
+  the `fix:` commits e0254f9 (perArg), 07af69d (identityFalse), 4801d95 (staleLocals); `Flags.current` = the code as it is
+  now (only `stampEarly` is left, finding C07-F2); `Flags.repaired` = all four switched off.
 
 Times are integer microseconds of naive local time since 1970-01-01 00:00; the monotonic clock is `Nat` milliseconds.
 Core Lean only.
@@ -303,18 +304,23 @@ def Cfg.handlers (cfg : Cfg) : List Handler :=
 
 /-- the deviations from the property found in the code, each switchable (`current` = the code as it is) -/
 structure Flags where
-  /-- new: `for time_spec in self.args: timer_active_check(time_spec, …)` instead of one call with the list -/
+  /-- new, before e0254f9: `for time_spec in self.args: timer_active_check(time_spec, …)` instead of one call with the list -/
   perArg : Bool
-  /-- new: `if await dec.handle_dispatch(data) is False` – only the object `False` stops the dispatch -/
+  /-- new, before 07af69d: `if await dec.handle_dispatch(data) is False` with a handler returning the raw expression value –
+      only the object `False` stops the dispatch (now the handler returns `bool(value)`) -/
   identityFalse : Bool
   /-- new: `last_trig_time` is stamped inside the time handler, before later handlers have had their say -/
   stampEarly : Bool
-  /-- both: `AstEval.eval(vars)` keeps the previous local table when `vars` is empty, so the `@state_active`
-      expression can see values left by an earlier occurrence -/
+  /-- both, before 4801d95: `AstEval.eval(vars)` keeps the previous local table when `vars` is empty, so the `@state_active`
+      expression can see values left by an earlier occurrence (now: `if new_state_vars is not None`) -/
   staleLocals : Bool
 deriving DecidableEq, Repr
 
-def Flags.current : Flags := ⟨true, true, true, true⟩
+/-- the code before the fix commits e0254f9 / 07af69d / 4801d95 -/
+def Flags.preFix : Flags := ⟨true, true, true, true⟩
+/-- the code as it is: `@time_active` passes the whole list, `StateActiveDecorator` returns `bool(…)`, `AstEval.eval` resets
+    its table for an empty dictionary; `last_trig_time` is still stamped inside the time handler (C07-F2) -/
+def Flags.current : Flags := ⟨false, false, true, false⟩
 def Flags.repaired : Flags := ⟨false, false, false, false⟩
 
 /-- what persists between occurrences: `last_trig_time` and (the name of) the expression's local variable table -/
